@@ -360,6 +360,23 @@ def registry_exact(prog: Program, r: RuleResult, strong_tables: bool = True):
         "JSONSerializableTypeRegistry.register#one-key", site(rg), str(stores), "both tables keyed by the registered type",
         "serialiser and deserialiser are not stored under the same key / the right tables",
     )
+    # every registration is recorded: both stores lie on every path through register (a guard that returns early for "types JSON handles
+    # natively" also drops every registered subclass of int / str / float - HTTPStatus, a StrEnum, numpy.float64 - which is then written as a
+    # bare number or string and comes back as one)
+    from ..cfg import CFG
+
+    rcfg = CFG(rg.node)
+    store_nodes = [n for n in rcfg.nodes if n.kind == "stmt" and isinstance(n.stmt, ast.Assign) and isinstance(n.stmt.targets[0], ast.Subscript) and src(n.stmt.targets[0].value) in stores]
+    skipping = None
+    for sn in store_nodes:
+        path = rcfg.path_avoiding(rcfg.entry, rcfg.exit, {sn.id})
+        if path is not None:
+            skipping = skipping or rcfg.describe(path)
+    if strong_tables:
+      r.check(bool(store_nodes) and skipping is None, "JSONSerializableTypeRegistry.register#unconditional", site(rg), " -> ".join(skipping) if skipping else f"{len(store_nodes)} stores",
+              "both tables are written on every path through register",
+              "register can return without recording the type: a type it decides to skip (a subclass of a JSON leaf type: HTTPStatus, a StrEnum) is later written without its "
+              "type tag, as a bare number or string, and comes back as int / str instead of its class")
     tables = {}
     for mname in ("get_serializer", "get_deserializer"):
         gm = prog.method(reg.qual, mname, inherited=False)
